@@ -120,6 +120,10 @@ def run(ctx):
                     and hdrs is not None and "method-change" in hdrs.tags
                 ctx.ob(R4, fi.qual, f"303: method={_const(meth)} body={_const(body) if body is not None else 'absent'} headers-stripped={'method-change' in (hdrs.tags if hdrs is not None else ())}", ok4,
                        "" if ok4 else "after a 303 the follow-up is not a body-less GET without content headers", witness=s.st.witness(), node=s.node)
+                bp = s.args.get("body_pos")
+                okbp = bp is None or (bp.kind == "const" and bp.val is None)
+                ctx.ob(R4, fi.qual, "303: no body position is carried to the body-less follow-up", okbp,
+                       "" if okbp else "the follow-up GET fails with ValueError from rewind_body(None, pos) instead of being sent", witness=s.st.witness(), node=s.node)
             elif is303 is False:
                 okm = meth is not None and "entry:method" in meth.tags
                 if is_mgr:
